@@ -331,6 +331,7 @@ func runC16(c *core.Ctx) {
 				tail := make([]byte, L%4)
 				prefix := make([]byte, L-4-len(tail))
 				rng.Read(prefix)
+				copy(prefix, k1) // the over-long key even starts with the stored key
 				long := keyeng.Solve(seed, prefix, tail, keyeng.Sum(seed, k1))
 				if len(long) != L || uint16(len(long)) != uint16(kl) {
 					panic("harness: bad over-long key")
